@@ -17,3 +17,19 @@ func (db *DB) VerifRWExec(q string) error {
 	_, err := db.rwDB.ExecContext(context.Background(), q)
 	return err
 }
+
+// VerifDB returns the database currently wrapped by the SwappableDB.
+func (s *SwappableDB) VerifDB() *DB {
+	s.dbMu.RLock()
+	defer s.dbMu.RUnlock()
+	return s.db
+}
+
+// VerifWatch returns the state of the checkpoint manager's WAL reset watch:
+// whether it is armed, the salt it was armed with and the frame index to resume from.
+func (s *SwappableDB) VerifWatch() (armed bool, salt [2]uint32, resumeFrameIdx int64) {
+	s.dbMu.RLock()
+	defer s.dbMu.RUnlock()
+	w := s.checkpointMgr.resetWatch
+	return w.armed, [2]uint32(w.salt), w.resumeFrameIdx
+}
